@@ -4,7 +4,10 @@
 //! Sub-commands (each reads one-word commands from stdin and answers with one JSON line):
 //!   guard   --dir D --name N          create | drop | state | quit
 //!   monitor --dir D --name N          state (ProcessMonitor) | mstate (monitoring::file_lock mapping) | quit
-//!   cleaner --dir D --name N          acquire | macquire | drop | quit
+//!   cleaner --dir D --name N          acquire | macquire | drop | failat K ERRNO | quit
+//!       `failat K ERRNO` arms the fault injection of harness/sysshim (iox2_verif_ctl): the K-th numbered call
+//!       FROM NOW of this process is not performed and fails with ERRNO (0 = the default of the call); the answer
+//!       of the next acquire / macquire carries the number of injected faults ("faults") and disarms it.
 //!   node    --root R --prefix P       create | drop | quit            (real iceoryx2 node)
 //!   nodes   --root R --prefix P       list | cleanup | quit           (Node::list / remove_stale_resources)
 //! `quit` leaves the process with `exit(0)` WITHOUT running destructors.
@@ -118,26 +121,53 @@ fn monitor(args: &vlib::Args) {
     quit()
 }
 
+/// Run-time control of the shim's fault injection (None: the process does not run under the shim).
+fn shim_ctl(op: i32, a: i64, b: i64) -> Option<i64> {
+    type Ctl = unsafe extern "C" fn(i32, libc::c_long, libc::c_long) -> libc::c_long;
+    let p = unsafe { libc::dlsym(libc::RTLD_DEFAULT, c"iox2_verif_ctl".as_ptr()) };
+    if p.is_null() {
+        return None;
+    }
+    let f = unsafe { core::mem::transmute::<*mut libc::c_void, Ctl>(p) };
+    Some(unsafe { f(op, a as libc::c_long, b as libc::c_long) } as i64)
+}
+
 fn cleaner(args: &vlib::Args) {
     let (cfg, name, path) = mon_cfg(args);
     let mut held: Option<ProcessCleaner> = None;
     let mut mheld: Option<<FileLockMonitoring as Monitoring>::Cleaner> = None;
     for c in commands() {
         match c.as_str() {
-            "acquire" => match ProcessCleaner::new(&path) {
-                Ok(c) => {
-                    held = Some(c);
-                    say(json!({"ev": "cleaner", "v": "Ok"}));
+            "acquire" => {
+                let r = ProcessCleaner::new(&path);
+                let faults = shim_ctl(3, 0, 0).unwrap_or(0);
+                match r {
+                    Ok(c) => {
+                        held = Some(c);
+                        say(json!({"ev": "cleaner", "v": "Ok", "faults": faults}));
+                    }
+                    Err(e) => say(json!({"ev": "cleaner", "v": format!("{e:?}"), "faults": faults})),
                 }
-                Err(e) => say(json!({"ev": "cleaner", "v": format!("{e:?}")})),
-            },
-            "macquire" => match MonBuilder::new(&name).config(&cfg).cleaner() {
-                Ok(c) => {
-                    mheld = Some(c);
-                    say(json!({"ev": "mcleaner", "v": "Ok"}));
+            }
+            "macquire" => {
+                let r = MonBuilder::new(&name).config(&cfg).cleaner();
+                let faults = shim_ctl(3, 0, 0).unwrap_or(0);
+                match r {
+                    Ok(c) => {
+                        mheld = Some(c);
+                        say(json!({"ev": "mcleaner", "v": "Ok", "faults": faults}));
+                    }
+                    Err(e) => say(json!({"ev": "mcleaner", "v": format!("{e:?}"), "faults": faults})),
                 }
-                Err(e) => say(json!({"ev": "mcleaner", "v": format!("{e:?}")})),
-            },
+            }
+            fa if fa.starts_with("failat ") => {
+                let mut it = fa.split_whitespace().skip(1).map(|x| x.parse::<i64>().unwrap_or(0));
+                let (k, errno) = (it.next().unwrap_or(0), it.next().unwrap_or(0));
+                match shim_ctl(1, k, errno) {
+                    Some(_) => say(json!({"ev": "armed", "v": "Ok"})),
+                    None => say(json!({"ev": "armed", "v": "NoShim"})),
+                }
+            }
             "drop" => {
                 drop(held.take());
                 drop(mheld.take());
